@@ -614,6 +614,7 @@ type c14Ctx struct {
 	seen map[string]bool
 	stop bool
 	okN  int
+	cold bool // the concurrent phase runs on a selector that has never been used (built again from the same configuration)
 }
 
 // fail reports a signature at most once per run. (A listed known finding does
@@ -830,6 +831,15 @@ func (x *c14Ctx) runCalls(calls []c14Call, setup func(*hook.Sched)) {
 		return
 	}
 
+	if x.cold {
+		// The serial reference above has used the selector; anything it computes on first use has been
+		// computed. The concurrent selections get a selector (and generation lists) built again from
+		// the same configuration, so that their first use of every generation and group overlaps.
+		if !w.build(r, w.viaToml) {
+			return
+		}
+		r.Probe("sched/concurrent-first-use-of-a-fresh-selector")
+	}
 	s := hook.Install(r.Tape)
 	defer s.Uninstall()
 	s.LockYield = true
@@ -1061,6 +1071,7 @@ func c14Random(r *sim.Run) {
 		calls = append(calls, c)
 	}
 	stay := tp.Bool("stay-bias")
+	x.cold = tp.Bool("cold-concurrent")
 	r.Cover("random", fmt.Sprint(fl.legacy, fl.lz, fl.zeroW, fl.toml, len(w.gens)))
 	r.Logf("C14 random world: %d concurrent selections, legacy-versions=%v leading-zero-networks=%v zero-weights=%v via-toml=%v stay-bias=%v", n, fl.legacy, fl.lz, fl.zeroW, fl.toml, stay)
 	x.runCalls(calls, func(s *hook.Sched) {
@@ -1190,7 +1201,7 @@ func c14SmallScenario(r *sim.Run) {
 	w.log(r)
 	r.Cover("small", fmt.Sprint(k))
 	r.Logf("C14 small scenario %d: %d concurrent selections, preemption bound %d (-1: none)", k, len(sc.calls), sc.maxPreempt)
-	x := &c14Ctx{r: r, w: w, seen: map[string]bool{}}
+	x := &c14Ctx{r: r, w: w, seen: map[string]bool{}, cold: k%2 == 1}
 	x.runCalls(sc.calls, func(s *hook.Sched) {
 		if sc.maxPreempt >= 0 {
 			s.MaxPreempt = sc.maxPreempt
@@ -1326,8 +1337,125 @@ func c14Scenario(r *sim.Run) {
 		c14SmallScenario(r)
 	case 2:
 		c14Sweep(r)
+	case 3:
+		c14Update(r)
 	default:
 		c14Random(r)
+	}
+}
+
+// scenario 3: the configuration of a generation is replaced / removed on a selector that has already
+// served selections of it (UpdateGeneration, RemoveGeneration, AddGeneration are the selector's own
+// API). "The subnets configured for that generation" are the ones configured at the time of the
+// selection, and the result depends on them alone: a selector built from scratch with the new
+// configuration must return the same.
+func c14Update(r *sim.Run) {
+	tp := r.Tape
+	fl := c14Flavor{legacy: tp.Choose("population", 2) == 0}
+	w := c14GenWorld(tp, fl)
+	if !w.build(r, false) {
+		return
+	}
+	x := &c14Ctx{r: r, w: w, seen: map[string]bool{}}
+	a := tp.Choose("updated-gen", len(w.gens))
+	var calls []c14Call
+	n := 2 + tp.Choose("ncalls", 5)
+	for i := 0; i < n; i++ {
+		c := c14Call{station: true, gi: a, seed: tp.Bytes("seed", 16), v6: tp.Bool("v6")}
+		if fl.legacy {
+			c.libver = uint(tp.Choose("libver", 5))
+		} else {
+			c.libver = 2 + uint(tp.Choose("libver", 3))
+		}
+		calls = append(calls, c)
+	}
+	r.Cover("update", fmt.Sprint(fl.legacy, len(w.gens)))
+	for i, c := range calls {
+		o := w.do(c)
+		r.Logf("before c%02d %s -> %s", i, w.describe(c), o)
+		x.contain(c, o, fmt.Sprintf("c%02d before the update", i))
+		if x.stop {
+			return
+		}
+	}
+	// the replacement configuration: a freshly generated generation
+	w2 := c14GenWorld(tp, c14Flavor{legacy: fl.legacy})
+	ng := w2.gens[0]
+	ng.id, ng.removed = w.gens[a].id, false
+	kind := tp.Choose("update-kind", 3)
+	mk := func(g *c14Gen) *SubnetConfig {
+		cfg := &SubnetConfig{}
+		for k := range g.groups {
+			grp := &g.groups[k]
+			p := &pb.PhantomSubnets{}
+			if !grp.noW {
+				v := grp.weight
+				p.Weight = &v
+			}
+			if !grp.noF {
+				v := grp.flag
+				p.RandomizeDstPort = &v
+			}
+			if !grp.nilSubs {
+				p.Subnets = []string{}
+				for _, sn := range grp.subnets {
+					p.Subnets = append(p.Subnets, sn.cidr)
+				}
+			}
+			grp.pb = p
+			cfg.WeightedSubnets = append(cfg.WeightedSubnets, p)
+		}
+		return cfg
+	}
+	switch kind {
+	case 0:
+		w.sel.UpdateGeneration(ng.id, mk(&ng))
+		r.Logf("UpdateGeneration(%d)", ng.id)
+	case 1:
+		w.sel.RemoveGeneration(ng.id)
+		w.sel.UpdateGeneration(ng.id, mk(&ng))
+		r.Logf("RemoveGeneration(%d), UpdateGeneration(%d)", ng.id, ng.id)
+	default:
+		// the generation is removed and not configured again
+		w.sel.RemoveGeneration(ng.id)
+		ng = w.gens[a]
+		ng.removed = true
+		r.Logf("RemoveGeneration(%d)", ng.id)
+	}
+	w.gens[a] = ng
+	l := &pb.PhantomSubnetsList{}
+	for k := range ng.groups {
+		l.WeightedSubnets = append(l.WeightedSubnets, ng.groups[k].pb)
+	}
+	w.lists[a] = l
+	w.log(r)
+	r.Probe("update/generation-replaced-after-use")
+	after := make([]c14Out, n)
+	for i, c := range calls {
+		after[i] = w.do(c)
+		r.Logf("after c%02d %s -> %s", i, w.describe(c), after[i])
+		x.contain(c, after[i], fmt.Sprintf("c%02d after the generation's configuration was replaced", i))
+		if x.stop {
+			return
+		}
+	}
+	// a selector that never saw the old configuration
+	fresh := &c14World{gens: append([]c14Gen(nil), w.gens...)}
+	for gi := range fresh.gens {
+		fresh.gens[gi].groups = append([]c14Group(nil), fresh.gens[gi].groups...)
+	}
+	if !fresh.build(r, false) {
+		return
+	}
+	for i, c := range calls {
+		o := fresh.do(c)
+		if !o.same(after[i]) {
+			x.fail("C14/impure/"+c.class()+"/depends-on-replaced-configuration", "c%02d %s returned %s on the selector whose generation %d had been replaced after use, but %s on a selector built from scratch with the same (new) configuration: the result depends on a configuration that is no longer in force", i, w.describe(c), after[i], ng.id, o)
+			return
+		}
+	}
+	if x.okN > 0 {
+		r.Nontrivial()
 	}
 }
 
